@@ -135,8 +135,9 @@ let c14 line =
       | c -> failwith ("unknown codec " ^ c) in
     let (outs, fin) = run_write enc (List.map parse_op optoks) st in
     let one tok (((r, evs), e), f) =
-      Printf.sprintf "%s[%s]=%s/%s%s" tok (String.concat "," (List.map show_wev evs)) (show_wres r)
-        (if e then "E" else "-") (if f then "F" else "-") in
+      (* is_write_buf_empty / is_write_buf_full / is_write_ready (= not full: framed.rs:108-117) *)
+      Printf.sprintf "%s[%s]=%s/%s%s%s" tok (String.concat "," (List.map show_wev evs)) (show_wres r)
+        (if e then "E" else "-") (if f then "F" else "-") (if f then "-" else "R") in
     String.concat ";" (List.map2 one optoks outs) ^ "|B" ^ blob fin.wbuf
   | _ -> failwith "c14: expected 5 fields"
 
